@@ -23,12 +23,19 @@ modes
                                                        ["reset"] every Reduino module is dropped from sys.modules and imported
                                                                  again (a stand-in for a fresh interpreter; no text)
 
+  helpers    {"sessions": [[[call, ...] program ...] session ...]}
+                                                     the emitter's literal helpers called directly, each session after a reload of emitter.py:
+                                                       ["dur", indent, var, value]  _emit_duration_ms(indent, var, value)
+                                                       ["fmt", value]               _format_float(value)
+                                                     value: ["i", n] int | ["f", "text"] float | ["b", bool] | ["s", text] str
+
 Every mode accepts "adv": key.  Then the name `set` in the namespaces of parser.py and emitter.py is bound to
 a subclass of set whose iteration order is dictated by the key ("asc": sorted, "desc": reverse sorted, anything
 else: sorted by sha256(key, element)) - a stand-in for "another platform's set ordering" that does not depend on
 the handful of permutations the hash seeds happen to produce.  Set displays / comprehensions of the source are
-not affected (they build the builtin type).
+rewritten into calls of `set` (the two modules are re-executed in place from their rewritten ast), so they are dictated too.
 """
+import ast
 import hashlib
 import json
 import os
@@ -198,11 +205,35 @@ def make_advset(key):
     return AdvSet
 
 
+class _SetRewriter(ast.NodeTransformer):
+    """{a, b} -> set([a, b]);  {f(x) for x in y} -> set([f(x) for x in y]): every set of the module is then built through the name
+    `set` (the dictated-order class).  The list keeps the evaluation order of the display / comprehension, so the elements, their
+    insertion order and every side effect are the same - only the class of the result differs."""
+
+    def visit_Set(self, node):
+        self.generic_visit(node)
+        return ast.copy_location(ast.Call(func=ast.Name(id="set", ctx=ast.Load()), args=[ast.List(elts=node.elts, ctx=ast.Load())], keywords=[]), node)
+
+    def visit_SetComp(self, node):
+        self.generic_visit(node)
+        return ast.copy_location(ast.Call(func=ast.Name(id="set", ctx=ast.Load()),
+                                          args=[ast.ListComp(elt=node.elt, generators=node.generators)], keywords=[]), node)
+
+
 def install_adv(key):
+    """bind `set` in parser.py / emitter.py to the dictated-order class and re-execute both modules, in place, from their source
+    with every set display / set comprehension turned into a call of `set` (so that those are dictated as well)"""
+    global emit, parse
     import Reduino.transpile.emitter as E
     cls = make_advset(key)
-    P.set = cls
-    E.set = cls
+    for mod in (P, E):
+        mod.__dict__["set"] = cls
+        with open(mod.__file__, encoding="utf-8") as fh:
+            tree = ast.parse(fh.read(), mod.__file__)
+        tree = ast.fix_missing_locations(_SetRewriter().visit(tree))
+        exec(compile(tree, mod.__file__, "exec"), mod.__dict__)
+        mod.__dict__["set"] = cls
+    emit, parse = E.emit, P.parse
     return cls
 
 
@@ -258,6 +289,40 @@ def promote_case(c):
             "cpp": {n: info.get(n) for n in order}}
 
 
+def helper_value(v):
+    if v[0] == "i":
+        return int(v[1])
+    if v[0] == "f":
+        return float(v[1])
+    if v[0] == "b":
+        return bool(v[1])
+    return str(v[1])
+
+
+def run_helpers(sessions):
+    import importlib
+    out = []
+    E = importlib.import_module("Reduino.transpile.emitter")
+    for ses in sessions:
+        E = importlib.reload(E)          # the helpers live in emitter.py: fresh function objects, fresh module-level tables
+        if not (hasattr(E, "_emit_duration_ms") and hasattr(E, "_format_float")):
+            return ["missing"]
+        rs = []
+        for prog in ses:
+            rp = []
+            for c in prog:
+                try:
+                    if c[0] == "dur":
+                        rp.append({"out": list(E._emit_duration_ms(c[1], c[2], helper_value(c[3])))})
+                    else:
+                        rp.append({"out": E._format_float(helper_value(c[1]))})
+                except BaseException as e:  # noqa
+                    rp.append({"exc": type(e).__name__})
+            rs.append(rp)
+        out.append(rs)
+    return out
+
+
 def main():
     req = json.load(sys.stdin)
     signal.signal(signal.SIGALRM, _alarm)
@@ -277,6 +342,8 @@ def main():
         out["results"] = run_ops(req["sources"], req["ops"], req.get("texts", False))
     elif mode == "promote":
         out["results"] = [promote_case(c) for c in req["cases"]]
+    elif mode == "helpers":
+        out["results"] = run_helpers(req["sessions"])
     elif mode == "sorted":
         out["results"] = [sorted(set(l)) for l in req["lists"]]
     else:
